@@ -87,6 +87,9 @@ fn generate_enum(
     variable_derives: &impl quote::ToTokens,
     query: &BoundQuery<'_>,
 ) -> TokenStream {
+    let serde = options.serde_path();
+    let serde_path = serde.to_token_stream().to_string();
+
     let normalized_name = options.normalization().input_name(input.name.as_str());
     let safe_name = keyword_replace(normalized_name);
     let enum_name = Ident::new(safe_name.as_ref(), Span::call_site());
@@ -126,6 +129,7 @@ fn generate_enum(
 
     quote! {
         #variable_derives
+        #[serde(crate = #serde_path)]
         pub enum #enum_name{
             #(#variants,)*
         }
